@@ -153,6 +153,7 @@ def entries(fx):
 def run(ctx, tier):
     ctx.rule("H1", "the host kind is stored whenever the host is stored, on every path of every public entry")
     ctx.rule("H5", "IPv4 number parser: radix dispatch and digit validation agree with the Standard's IPv4 number parser")
+    ctx.rule("H6", "(shared with C04.W5) the IPv6 parsers of the two URL types are statement-for-statement identical: a host text cannot be accepted by one and rejected by the other")
     ctx.rule("H4", "IPv6 serializer: the recorded longest zero run is replaced only by a strictly longer one (first longest wins)")
     cfgs = C.configs_for(tier, thorough=["release", "ssse3", "avx512", "devchecks", "amalgamated", "nopattern"])
     fxs = C.load_configs(ctx, cfgs)
@@ -270,6 +271,8 @@ def check_ipv4_number(ctx, fx):
 
 def check(ctx, fx):
     check_ipv4_number(ctx, fx)
+    from rules import c04
+    c04.check_ipv6_twins(ctx, fx, "H6")
     ents = entries(fx)
     ctx.floor("H1", len(ents), 30, "public entries analysed")
     total_hosts = set()
